@@ -49,10 +49,15 @@ structure Frame where
   discard : Bool := false
   deriving Inhabited
 
+/-- A compiled-function object: the constant it was made from and its captured cells. Function
+objects live in a store of their own (`Regs.fobjs`), out of reach of the value-level operations. -/
+abbrev FnObj := Nat × List Nat
+
 structure Regs where
   stack   : Array Value
   sp      : Nat
   globals : Array Value
+  fobjs   : Array FnObj := #[]
 
 structure Core where
   regs    : Regs
@@ -66,6 +71,30 @@ def Code.fn (c : Code) (idx : Nat) : Option Fn :=
     | _ => none
 
 abbrev VMM := EM          -- StateT GSt (StateT St (Except Err)): heap + errors
+
+/-- Internal faults of the VM: what a well-formed function can never cause (property C02). In the
+real VM each is a Go run-time panic (index out of range) or, for the first two, an error. -/
+inductive Fault where
+  | unknownOpcode (op : Nat)
+  | notFunction (k : Nat)        -- CLOSURE on a constant that is not a function
+  | constIndex (k : Nat)
+  | freeIndex (i : Nat)
+  | builtinIndex (i : Nat)
+  | globalIndex (i : Nat)
+  | ipOutside (ip : Int)         -- instruction fetch outside the instruction stream
+  | underflow                    -- operand-stack read below index 0
+  | returnFromMain
+  | badFunctionIndex
+  deriving Repr, DecidableEq
+
+/-- The dispatch monad: faults are values of their own, so nothing written in `VMM` (in particular
+none of the value-level operations and builtins) can produce one. -/
+abbrev XM := ExceptT Fault VMM
+
+def em {α} (x : VMM α) : XM α := ExceptT.lift x
+def fault {α} (f : Fault) : XM α := ExceptT.mk (pure (.error f))
+/-- Operand-stack reads of the `k` topmost slots need `sp ≥ k` (Go: negative index panics). -/
+def need (r : Regs) (k : Nat) : XM Unit := if r.sp < k then fault .underflow else pure ()
 
 /-- Heap-level computation inside the VM monad. -/
 def hp {α} (x : M α) : VMM α := Spec.liftM x
@@ -168,188 +197,223 @@ structure SimpleOut where
   ip    : Int
   alloc : Bool := false
 
+def rtE {α} (msg : String) : XM α := em (eRt msg)
+def unsupE {α} (why : String) : XM α := em (eUnsup why)
+def panicE {α} (msg : String) : XM α := em (goPanic msg)
+
 /-- The opcodes that neither call, return nor suspend. `ip` is the index of the opcode byte. -/
-def execSimple (code : Code) (f : Fn) (fr : Frame) (ip : Int) (op : Nat) (r : Regs) : VMM SimpleOut := do
+def execSimple (code : Code) (f : Fn) (fr : Frame) (ip : Int) (op : Nat) (r : Regs) : XM SimpleOut := do
   if op == opConstant then
     let k := op16 f ip
     match code.consts[k]? with
-    | some (.val v) => do pure { regs := ← push r v, ip := ip + 2 }
-    | some (.fn _ ref) => do pure { regs := ← push r (.cfn ref), ip := ip + 2 }
-    | none => goPanic s!"runtime error: index out of range [{k}] with length {code.consts.size}"
-  else if op == opNull then do pure { regs := ← push r .undef, ip := ip }
-  else if op == opTrue then do pure { regs := ← push r (.bool true), ip := ip }
-  else if op == opFalse then do pure { regs := ← push r (.bool false), ip := ip }
-  else if op == opPop then pure { regs := { r with sp := r.sp - 1 }, ip := ip }
+    | some (.val v) => do pure { regs := ← em (push r v), ip := ip + 2 }
+    | some (.fn _ ref) => do pure { regs := ← em (push r (.cfn ref)), ip := ip + 2 }
+    | none => fault (.constIndex k)
+  else if op == opNull then do pure { regs := ← em (push r .undef), ip := ip }
+  else if op == opTrue then do pure { regs := ← em (push r (.bool true)), ip := ip }
+  else if op == opFalse then do pure { regs := ← em (push r (.bool false)), ip := ip }
+  else if op == opPop then do
+    need r 1
+    pure { regs := { r with sp := r.sp - 1 }, ip := ip }
   else if op == opBinaryOp then do
+    need r 2
     let tok := byteAt f (ip + 1)
-    let res ← hp (binaryOp (tokOfNum tok) (getSlot r (r.sp - 2)) (getSlot r (r.sp - 1)))
-    let r ← setSlot r (r.sp - 2) res
+    let res ← em (hp (binaryOp (tokOfNum tok) (getSlot r (r.sp - 2)) (getSlot r (r.sp - 1))))
+    let r ← em (setSlot r (r.sp - 2) res)
     pure { regs := { r with sp := r.sp - 1 }, ip := ip + 1, alloc := true }
   else if op == opEqual || op == opNotEqual then do
-    let e ← hp (equalsV 64 (getSlot r (r.sp - 2)) (getSlot r (r.sp - 1)))
-    let r ← setSlot r (r.sp - 2) (.bool (if op == opEqual then e else !e))
+    need r 2
+    let e ← em (hp (equalsV 64 (getSlot r (r.sp - 2)) (getSlot r (r.sp - 1))))
+    let r ← em (setSlot r (r.sp - 2) (.bool (if op == opEqual then e else !e)))
     pure { regs := { r with sp := r.sp - 1 }, ip := ip }
   else if op == opLNot then do
-    let b ← hp (isFalsy (getSlot r (r.sp - 1)))
-    pure { regs := ← setSlot r (r.sp - 1) (.bool b), ip := ip }
+    need r 1
+    let b ← em (hp (isFalsy (getSlot r (r.sp - 1))))
+    pure { regs := ← em (setSlot r (r.sp - 1) (.bool b)), ip := ip }
   else if op == opBComplement then do
+    need r 1
     match getSlot r (r.sp - 1) with
-    | .int n => do pure { regs := ← setSlot r (r.sp - 1) (.int (-n - 1)), ip := ip, alloc := true }
-    | a => eRt s!"invalid operation: ^{typeName a}"
+    | .int n => do pure { regs := ← em (setSlot r (r.sp - 1) (.int (-n - 1))), ip := ip, alloc := true }
+    | a => rtE s!"invalid operation: ^{typeName a}"
   else if op == opMinus then do
+    need r 1
     match getSlot r (r.sp - 1) with
-    | .int n => do pure { regs := ← setSlot r (r.sp - 1) (.int (wrap64 (-n))), ip := ip, alloc := true }
-    | .float x => do pure { regs := ← setSlot r (r.sp - 1) (.float (-x)), ip := ip, alloc := true }
-    | a => eRt s!"invalid operation: -{typeName a}"
+    | .int n => do pure { regs := ← em (setSlot r (r.sp - 1) (.int (wrap64 (-n)))), ip := ip, alloc := true }
+    | .float x => do pure { regs := ← em (setSlot r (r.sp - 1) (.float (-x))), ip := ip, alloc := true }
+    | a => rtE s!"invalid operation: -{typeName a}"
   else if op == opJumpFalsy then do
-    let b ← hp (isFalsy (getSlot r (r.sp - 1)))
+    need r 1
+    let b ← em (hp (isFalsy (getSlot r (r.sp - 1))))
     pure { regs := { r with sp := r.sp - 1 }, ip := if b then Int.ofNat (op32 f ip) - 1 else ip + 4 }
   else if op == opAndJump then do
-    if ← hp (isFalsy (getSlot r (r.sp - 1))) then pure { regs := r, ip := Int.ofNat (op32 f ip) - 1 }
+    need r 1
+    if ← em (hp (isFalsy (getSlot r (r.sp - 1)))) then pure { regs := r, ip := Int.ofNat (op32 f ip) - 1 }
     else pure { regs := { r with sp := r.sp - 1 }, ip := ip + 4 }
   else if op == opOrJump then do
-    if ← hp (isFalsy (getSlot r (r.sp - 1))) then pure { regs := { r with sp := r.sp - 1 }, ip := ip + 4 }
+    need r 1
+    if ← em (hp (isFalsy (getSlot r (r.sp - 1)))) then pure { regs := { r with sp := r.sp - 1 }, ip := ip + 4 }
     else pure { regs := r, ip := Int.ofNat (op32 f ip) - 1 }
   else if op == opJump then pure { regs := r, ip := Int.ofNat (op32 f ip) - 1 }
-  else if op == opSetGlobal then
+  else if op == opSetGlobal then do
+    need r 1
     let g := op16 f ip
     if g < r.globals.size then
       pure { regs := { r with sp := r.sp - 1, globals := r.globals.setIfInBounds g (getSlot r (r.sp - 1)) }, ip := ip + 2 }
-    else goPanic s!"runtime error: index out of range [{g}] with length {r.globals.size}"
+    else fault (.globalIndex g)
   else if op == opGetGlobal then do
     let g := op16 f ip
-    if g < r.globals.size then pure { regs := ← push r (r.globals.getD g .undef), ip := ip + 2 }
-    else goPanic s!"runtime error: index out of range [{g}] with length {r.globals.size}"
+    if g < r.globals.size then pure { regs := ← em (push r (r.globals.getD g .undef)), ip := ip + 2 }
+    else fault (.globalIndex g)
   else if op == opSetSelGlobal then do
     let g := op16 f ip
     let n := byteAt f (ip + 3)
-    let (sels, v) := selArgs r n
-    indexAssign (r.globals.getD g .undef) v sels
-    pure { regs := { r with sp := r.sp - n - 1 }, ip := ip + 3 }
+    need r (n + 1)
+    if g < r.globals.size then do
+      let (sels, v) := selArgs r n
+      em (indexAssign (r.globals.getD g .undef) v sels)
+      pure { regs := { r with sp := r.sp - n - 1 }, ip := ip + 3 }
+    else fault (.globalIndex g)
   else if op == opArray then do
     let n := op16 f ip
-    let a ← hp (newArray (slots r (r.sp - n) n))
-    pure { regs := ← push { r with sp := r.sp - n } (.arr a), ip := ip + 2, alloc := true }
+    need r n
+    let a ← em (hp (newArray (slots r (r.sp - n) n)))
+    pure { regs := ← em (push { r with sp := r.sp - n } (.arr a)), ip := ip + 2, alloc := true }
   else if op == opMap then do
     let n := op16 f ip
-    let kvs ← ((List.range (n / 2)).mapM (fun i => do
+    need r n
+    let kvs ← em ((List.range (n / 2)).mapM (fun i => do
       match getSlot r (r.sp - n + 2 * i) with
       | .str k => pure (k, getSlot r (r.sp - n + 2 * i + 1))
       | _ => goPanic "interface conversion: tengo.Object is not *tengo.String") : VMM (List (Bytes × Value)))
-    let m ← hp (newMap kvs)
-    pure { regs := ← push { r with sp := r.sp - n } (.map m), ip := ip + 2, alloc := true }
+    let m ← em (hp (newMap kvs))
+    pure { regs := ← em (push { r with sp := r.sp - n } (.map m)), ip := ip + 2, alloc := true }
   else if op == opError then do
-    let e ← hp (alloc (.err (getSlot r (r.sp - 1))))
-    pure { regs := ← setSlot r (r.sp - 1) (.err e), ip := ip, alloc := true }
+    need r 1
+    let e ← em (hp (alloc (.err (getSlot r (r.sp - 1)))))
+    pure { regs := ← em (setSlot r (r.sp - 1) (.err e)), ip := ip, alloc := true }
   else if op == opImmutable then do
+    need r 1
     match getSlot r (r.sp - 1) with
     | .arr a => do
-        match ← hp (getObj a) with
-        | .arr st off len => do
-            match ← hp (getObj st) with
-            | .store vs h => hp (setObj st (.store vs (h + 1)))
-            | _ => eUnsup "bad store"
-            let a' ← hp (alloc (.arr st off len))
-            pure { regs := ← setSlot r (r.sp - 1) (.imarr a'), ip := ip, alloc := true }
-        | _ => eUnsup "bad array"
-    | .map m => do pure { regs := ← setSlot r (r.sp - 1) (.immap m), ip := ip, alloc := true }
+        let a' ← em (do
+          match ← hp (getObj a) with
+          | .arr st off len => do
+              match ← hp (getObj st) with
+              | .store vs h => hp (setObj st (.store vs (h + 1)))
+              | _ => eUnsup "bad store"
+              hp (alloc (.arr st off len))
+          | _ => eUnsup "bad array" : VMM Nat)
+        pure { regs := ← em (setSlot r (r.sp - 1) (.imarr a')), ip := ip, alloc := true }
+    | .map m => do pure { regs := ← em (setSlot r (r.sp - 1) (.immap m)), ip := ip, alloc := true }
     | _ => pure { regs := r, ip := ip }
   else if op == opIndex then do
-    let v ← indexGet (getSlot r (r.sp - 2)) (getSlot r (r.sp - 1))
-    let r ← setSlot r (r.sp - 2) v
+    need r 2
+    let v ← em (indexGet (getSlot r (r.sp - 2)) (getSlot r (r.sp - 1)))
+    let r ← em (setSlot r (r.sp - 2) v)
     pure { regs := { r with sp := r.sp - 1 }, ip := ip }
   else if op == opSliceIndex then do
-    let v ← sliceV (getSlot r (r.sp - 3)) (getSlot r (r.sp - 2)) (getSlot r (r.sp - 1))
-    pure { regs := ← push { r with sp := r.sp - 3 } v, ip := ip, alloc := true }
+    need r 3
+    let v ← em (sliceV (getSlot r (r.sp - 3)) (getSlot r (r.sp - 2)) (getSlot r (r.sp - 1)))
+    pure { regs := ← em (push { r with sp := r.sp - 3 } v), ip := ip, alloc := true }
   else if op == opDefineLocal then do
+    need r 1
     let i := byteAt f (ip + 1)
-    pure { regs := ← setSlot { r with sp := r.sp - 1 } (fr.bp + i) (getSlot r (r.sp - 1)), ip := ip + 1 }
+    pure { regs := ← em (setSlot { r with sp := r.sp - 1 } (fr.bp + i) (getSlot r (r.sp - 1))), ip := ip + 1 }
   else if op == opSetLocal then do
+    need r 1
     let i := byteAt f (ip + 1)
     let v := getSlot r (r.sp - 1)
     let r := { r with sp := r.sp - 1 }
     match getSlot r (fr.bp + i) with
-    | .ptr c => do hp (setObj c (.cell v false)); pure { regs := r, ip := ip + 1 }
-    | _ => do pure { regs := ← setSlot r (fr.bp + i) v, ip := ip + 1 }
+    | .ptr c => do em (hp (setObj c (.cell v false))); pure { regs := r, ip := ip + 1 }
+    | _ => do pure { regs := ← em (setSlot r (fr.bp + i) v), ip := ip + 1 }
   else if op == opSetSelLocal then do
     let i := byteAt f (ip + 1)
     let n := byteAt f (ip + 2)
+    need r (n + 1)
     let (sels, v) := selArgs r n
-    let dst ← deref (getSlot r (fr.bp + i))
-    indexAssign dst v sels
+    let dst ← em (deref (getSlot r (fr.bp + i)))
+    em (indexAssign dst v sels)
     pure { regs := { r with sp := r.sp - n - 1 }, ip := ip + 2 }
   else if op == opGetLocal then do
-    let v ← deref (getSlot r (fr.bp + byteAt f (ip + 1)))
-    pure { regs := ← push r v, ip := ip + 1 }
+    let v ← em (deref (getSlot r (fr.bp + byteAt f (ip + 1))))
+    pure { regs := ← em (push r v), ip := ip + 1 }
   else if op == opGetBuiltin then do
     let i := byteAt f (ip + 1)
     match builtinNames[i]? with
-    | some n => do pure { regs := ← push r (.builtin n), ip := ip + 1 }
-    | none => goPanic s!"runtime error: index out of range [{i}] with length {builtinNames.length}"
+    | some n => do pure { regs := ← em (push r (.builtin n)), ip := ip + 1 }
+    | none => fault (.builtinIndex i)
   else if op == opClosure then do
     let k := op16 f ip
     let numFree := byteAt f (ip + 3)
+    need r numFree
     match code.consts[k]? with
-    | some (.fn _ _) => pure ()
-    | some (.val v) => eRt s!"not function: {typeName v}"
-    | none => goPanic s!"runtime error: index out of range [{k}] with length {code.consts.size}"
-    -- compiled code only ever captures through GETLP / GETFP, i.e. cells; a bare value is boxed
-    let free ← ((slots r (r.sp - numFree) numFree).mapM (fun v => do
-      match v with
-      | .ptr c => pure c
-      | v => hp (alloc (.cell v false))) : VMM (List Nat))
-    let cl ← hp (alloc (.cfn k free))
-    pure { regs := ← push { r with sp := r.sp - numFree } (.cfn cl), ip := ip + 3, alloc := true }
+    | some (.fn _ _) => do
+      -- compiled code only ever captures through GETLP / GETFP, i.e. cells; a bare value is boxed
+      let free ← em ((slots r (r.sp - numFree) numFree).mapM (fun v => do
+        match v with
+        | .ptr c => pure c
+        | v => hp (alloc (.cell v false))) : VMM (List Nat))
+      let cl := r.fobjs.size
+      let r := { r with sp := r.sp - numFree, fobjs := r.fobjs.push (k, free) }
+      pure { regs := ← em (push r (.cfn cl)), ip := ip + 3, alloc := true }
+    | some (.val _) => fault (.notFunction k)
+    | none => fault (.constIndex k)
   else if op == opGetFreePtr then do
     let i := byteAt f (ip + 1)
     match fr.free[i]? with
-    | some c => do pure { regs := ← push r (.ptr c), ip := ip + 1 }
-    | none => goPanic s!"runtime error: index out of range [{i}] with length {fr.free.length}"
+    | some c => do pure { regs := ← em (push r (.ptr c)), ip := ip + 1 }
+    | none => fault (.freeIndex i)
   else if op == opGetFree then do
     let i := byteAt f (ip + 1)
     match fr.free[i]? with
-    | some c => do pure { regs := ← push r (← deref (.ptr c)), ip := ip + 1 }
-    | none => goPanic s!"runtime error: index out of range [{i}] with length {fr.free.length}"
+    | some c => do pure { regs := ← em (do push r (← deref (.ptr c))), ip := ip + 1 }
+    | none => fault (.freeIndex i)
   else if op == opSetFree then do
+    need r 1
     let i := byteAt f (ip + 1)
     match fr.free[i]? with
     | some c => do
-        hp (setObj c (.cell (getSlot r (r.sp - 1)) false))
+        em (hp (setObj c (.cell (getSlot r (r.sp - 1)) false)))
         pure { regs := { r with sp := r.sp - 1 }, ip := ip + 1 }
-    | none => goPanic s!"runtime error: index out of range [{i}] with length {fr.free.length}"
+    | none => fault (.freeIndex i)
   else if op == opGetLocalPtr then do
     let slot := fr.bp + byteAt f (ip + 1)
     match getSlot r slot with
-    | .ptr c => do pure { regs := ← push r (.ptr c), ip := ip + 1 }
+    | .ptr c => do pure { regs := ← em (push r (.ptr c)), ip := ip + 1 }
     | v => do
-        let c ← hp (alloc (.cell v false))
-        let r ← setSlot r slot (.ptr c)
-        pure { regs := ← push r (.ptr c), ip := ip + 1 }
+        let c ← em (hp (alloc (.cell v false)))
+        let r ← em (setSlot r slot (.ptr c))
+        pure { regs := ← em (push r (.ptr c)), ip := ip + 1 }
   else if op == opSetSelFree then do
     let i := byteAt f (ip + 1)
     let n := byteAt f (ip + 2)
+    need r (n + 1)
     let (sels, v) := selArgs r n
     match fr.free[i]? with
     | some c => do
-        indexAssign (← deref (.ptr c)) v sels
+        em (do indexAssign (← deref (.ptr c)) v sels)
         pure { regs := { r with sp := r.sp - n - 1 }, ip := ip + 2 }
-    | none => goPanic s!"runtime error: index out of range [{i}] with length {fr.free.length}"
+    | none => fault (.freeIndex i)
   else if op == opIteratorInit then do
+    need r 1
     let v := getSlot r (r.sp - 1)
-    match ← makeIter v with
-    | none => eRt s!"not iterable: {typeName v}"
+    match ← em (makeIter v) with
+    | none => rtE s!"not iterable: {typeName v}"
     | some o => do
-        let it ← hp (alloc o)
-        pure { regs := ← setSlot r (r.sp - 1) (.iter it), ip := ip, alloc := true }
+        let it ← em (hp (alloc o))
+        pure { regs := ← em (setSlot r (r.sp - 1) (.iter it)), ip := ip, alloc := true }
   else if op == opIteratorNext then do
+    need r 1
     match getSlot r (r.sp - 1) with
-    | .iter it => do pure { regs := ← setSlot r (r.sp - 1) (.bool (← iterNext it)), ip := ip }
-    | _ => goPanic "interface conversion: tengo.Object is not tengo.Iterator"
+    | .iter it => do pure { regs := ← em (do setSlot r (r.sp - 1) (.bool (← iterNext it))), ip := ip }
+    | _ => panicE "interface conversion: tengo.Object is not tengo.Iterator"
   else if op == opIteratorKey || op == opIteratorValue then do
+    need r 1
     match getSlot r (r.sp - 1) with
-    | .iter it => do pure { regs := ← setSlot r (r.sp - 1) (← iterGet it (op == opIteratorKey)), ip := ip }
-    | _ => goPanic "interface conversion: tengo.Object is not tengo.Iterator"
-  else eRt s!"unknown opcode: {op}"
+    | .iter it => do pure { regs := ← em (do setSlot r (r.sp - 1) (← iterGet it (op == opIteratorKey))), ip := ip }
+    | _ => panicE "interface conversion: tengo.Object is not tengo.Iterator"
+  else fault (.unknownOpcode op)
 
 /-! ### calls and returns -/
 
@@ -374,80 +438,88 @@ def copyArgs (r : Regs) (bp numArgs : Nat) : Nat → VMM Regs
 /-- The frame decision of OpCall once the callee and its arguments are in place: reuse the frame for
 a self tail call, otherwise push a frame unless the frame array is full. -/
 def finishCompiled (f : Fn) (ipAfter : Int) (c : Core) (r : Regs) (numArgs : Nat)
-    (cr k : Nat) (free : List Nat) (cf : Fn) : VMM ExecOut :=
+    (cr k : Nat) (free : List Nat) (cf : Fn) : XM ExecOut :=
   if isSelfTail f c.cur cr ipAfter then do
     let discard := c.cur.discard || byteAt f (ipAfter + 1) == opPop
-    let r ← copyArgs r c.cur.bp numArgs numArgs
+    let r ← em (copyArgs r c.cur.bp numArgs numArgs)
     pure (.next { c with regs := { r with sp := r.sp - numArgs - 1 },
                          cur := { c.cur with ip := -1, discard := discard } } false)
-  else if c.callers.length + 1 ≥ maxFrames then eRt "stack overflow"
+  else if c.callers.length + 1 ≥ maxFrames then rtE "stack overflow"
   else
     let newFrame : Frame :=
       { fnIdx := k + 1, fnRef := some cr, ip := -1, bp := r.sp - numArgs, free := free }
     pure (.next { regs := { r with sp := r.sp - numArgs + cf.numLocals },
                   cur := newFrame, callers := { c.cur with ip := ipAfter } :: c.callers } false)
 
-def execCall (code : Code) (f : Fn) (ip : Int) (c : Core) : VMM ExecOut := do
+/-- Spread of the last argument (`f(a, b...)`). Returns the registers and the argument count. -/
+def spreadArgs (r : Regs) (numArgs0 spread : Nat) : VMM (Regs × Nat) :=
+  if spread == 1 then do
+    match getSlot r (r.sp - 1) with
+    | .arr a | .imarr a => do
+        let es ← hp (arrElems a)
+        let r ← pushAll { r with sp := r.sp - 1 } es
+        pure (r, numArgs0 + es.length - 1)
+    | x => eRt s!"not an array: {typeName x}"
+  else pure (r, numArgs0)
+
+/-- Roll-up of the variadic arguments into an array. -/
+def rollUp (cf : Fn) (r : Regs) (numArgs : Nat) : VMM (Regs × Nat) :=
+  if cf.varargs && numArgs + 1 ≥ cf.numParams then do
+    let real := cf.numParams - 1
+    let nVar := numArgs - real
+    let a ← hp (newArray (slots r (r.sp - nVar) nVar))
+    let r ← setSlot r (r.sp - nVar) (.arr a)
+    pure ({ r with sp := r.sp - nVar + 1 }, real + 1)
+  else pure (r, numArgs)
+
+def execCall (code : Code) (f : Fn) (ip : Int) (c : Core) : XM ExecOut := do
   let r := c.regs
   let numArgs0 := byteAt f (ip + 1)
   let spread := byteAt f (ip + 2)
+  need r (numArgs0 + 1)
   let callee := getSlot r (r.sp - 1 - numArgs0)
-  match callee with
-  | .cfn _ | .builtin _ => pure ()
-  | .fn _ => eUnsup "reference-semantics closure in the VM model"
-  | _ => eRt s!"not callable: {typeName callee}"
   let ipAfter := ip + 2
-  -- spread the last argument
-  let (r, numArgs) ← (if spread == 1 then do
-      match getSlot r (r.sp - 1) with
-      | .arr a | .imarr a => do
-          let es ← hp (arrElems a)
-          let r ← pushAll { r with sp := r.sp - 1 } es
-          pure (r, numArgs0 + es.length - 1)
-      | x => eRt s!"not an array: {typeName x}"
-    else pure (r, numArgs0) : VMM (Regs × Nat))
   match callee with
   | .cfn cr => do
-      let .cfn k free ← hp (getObj cr) | eUnsup "bad function object"
-      let some (.fn cf _) := code.consts[k]? | eUnsup "bad function constant"
-      -- variadic roll-up
-      let (r, numArgs) ← (if cf.varargs && numArgs + 1 ≥ cf.numParams then do
-          let real := cf.numParams - 1
-          let nVar := numArgs - real
-          let a ← hp (newArray (slots r (r.sp - nVar) nVar))
-          let r ← setSlot r (r.sp - nVar) (.arr a)
-          pure ({ r with sp := r.sp - nVar + 1 }, real + 1)
-        else pure (r, numArgs) : VMM (Regs × Nat))
+      let (r, numArgs) ← em (spreadArgs r numArgs0 spread)
+      let some (k, free) := r.fobjs[cr]? | unsupE "bad function object"
+      let some (.fn cf _) := code.consts[k]? | unsupE "bad function constant"
+      let (r, numArgs) ← em (rollUp cf r numArgs)
       if numArgs != cf.numParams then
-        if cf.varargs then eRt s!"wrong number of arguments: want>={cf.numParams - 1}, got={numArgs}"
-        else eRt s!"wrong number of arguments: want={cf.numParams}, got={numArgs}"
-      finishCompiled f ipAfter c r numArgs cr k free cf
+        if cf.varargs then rtE s!"wrong number of arguments: want>={cf.numParams - 1}, got={numArgs}"
+        else rtE s!"wrong number of arguments: want={cf.numParams}, got={numArgs}"
+      else finishCompiled f ipAfter c r numArgs cr k free cf
   | .builtin name => do
-      let ret ← callBuiltin name (slots r (r.sp - numArgs) numArgs)
-      let r ← push { r with sp := r.sp - numArgs - 1 } ret
+      let (r, numArgs) ← em (spreadArgs r numArgs0 spread)
+      let ret ← em (callBuiltin name (slots r (r.sp - numArgs) numArgs))
+      let r ← em (push { r with sp := r.sp - numArgs - 1 } ret)
       pure (.next { c with regs := r, cur := { c.cur with ip := ipAfter } } true)
-  | _ => eRt s!"not callable: {typeName callee}"
+  | .fn _ => unsupE "reference-semantics closure in the VM model"
+  | _ => rtE s!"not callable: {typeName callee}"
 
-def execReturn (f : Fn) (ip : Int) (c : Core) : VMM ExecOut := do
+def execReturn (f : Fn) (ip : Int) (c : Core) : XM ExecOut := do
   let hasVal := byteAt f (ip + 1) == 1
+  if hasVal then need c.regs 1
   let ret := if hasVal && !c.cur.discard then getSlot c.regs (c.regs.sp - 1) else .undef
   match c.callers with
-  | [] => goPanic "runtime error: index out of range [-1]"
+  | [] => fault .returnFromMain
   | caller :: rest => do
-      let r ← setSlot { c.regs with sp := c.cur.bp } (c.cur.bp - 1) ret
+      let r ← em (setSlot { c.regs with sp := c.cur.bp } (c.cur.bp - 1) ret)
       pure (.next { regs := r, cur := caller, callers := rest } false)
 
 /-- One dispatch of the VM loop (without the allocation counter). -/
-def exec (code : Code) (c : Core) : VMM ExecOut := do
-  let some f := code.fn c.cur.fnIdx | eUnsup "bad function index"
+def exec (code : Code) (c : Core) : XM ExecOut := do
+  let some f := code.fn c.cur.fnIdx | fault .badFunctionIndex
   let ip := c.cur.ip + 1
-  let op := byteAt f ip
-  if op == opCall then execCall code f ip c
-  else if op == opReturn then execReturn f ip c
-  else if op == opSuspend then pure (.halt { c with cur := { c.cur with ip := ip } })
-  else do
-    let o ← execSimple code f c.cur ip op c.regs
-    pure (.next { c with regs := o.regs, cur := { c.cur with ip := o.ip } } o.alloc)
+  if ip < 0 || ip.toNat ≥ f.insts.size then fault (.ipOutside ip)
+  else
+    let op := byteAt f ip
+    if op == opCall then execCall code f ip c
+    else if op == opReturn then execReturn f ip c
+    else if op == opSuspend then pure (.halt { c with cur := { c.cur with ip := ip } })
+    else do
+      let o ← execSimple code f c.cur ip op c.regs
+      pure (.next { c with regs := o.regs, cur := { c.cur with ip := o.ip } } o.alloc)
 
 /-! ### the loop -/
 
@@ -460,6 +532,7 @@ structure Cfg where
 inductive Outcome where
   | halted (cfg : Cfg)
   | failed (e : Err) (at_ : Cfg)      -- `at_`: the configuration whose dispatch failed
+  | fault (f : Fault) (at_ : Cfg)     -- an internal fault (never for verified code: `Tengo.Props.C02`)
   | limit (at_ : Cfg)                 -- ErrObjectAllocLimit: the tracked allocation of this dispatch was refused
   | outOfFuel (cfg : Cfg)
 
@@ -501,16 +574,17 @@ def run (code : Code) (keep : Nat) : Nat → Int → Cfg → Log → Outcome × 
   | 0, _, cfg, log => (.outOfFuel cfg, log)
   | fuel + 1, allocs, cfg, log =>
     let log := log.tick keep (observe cfg.core allocs)
-    match ((exec code cfg.core).run cfg.gst).run cfg.heap with
+    match (((exec code cfg.core).run).run cfg.gst).run cfg.heap with
     | .error e => (.failed e cfg, log)
-    | .ok ((.halt c, g), h) => (.halted ⟨c, g, h⟩, log)
-    | .ok ((.next c false, g), h) => run code keep fuel allocs ⟨c, g, h⟩ log
-    | .ok ((.next c true, g), h) =>
+    | .ok ((.error ft, _), _) => (.fault ft cfg, log)
+    | .ok ((.ok (.halt c), g), h) => (.halted ⟨c, g, h⟩, log)
+    | .ok ((.ok (.next c false), g), h) => run code keep fuel allocs ⟨c, g, h⟩ log
+    | .ok ((.ok (.next c true), g), h) =>
       if allocs - 1 == 0 then (.limit cfg, log)
       else run code keep fuel (allocs - 1) ⟨c, g, h⟩ log.count
 
-def initCore (globals : Array Value) : Core :=
-  { regs := { stack := Array.replicate stackSize .undef, sp := 0, globals := globals },
+def initCore (globals : Array Value) (fobjs : Array FnObj) : Core :=
+  { regs := { stack := Array.replicate stackSize .undef, sp := 0, globals := globals, fobjs := fobjs },
     cur := { fnIdx := 0, fnRef := none, ip := -1, bp := 0, free := [] }, callers := [] }
 
 end Tengo.Model.VM
